@@ -9,7 +9,8 @@
         Fixed: n := len(p) before trimming); zaptest/logger.go: TestingWriter.Write;
         zapio/writer.go: Writer.Write (imported from C17.Model);
         zapcore/buffered_write_syncer.go: Write/Sync/Stop over an accepting sink
-        (small model; the full one belongs to C12).
+        (small model; the full one belongs to C12), and Write/Sync/Stop/flushLoop with
+        bufio.Writer's Write/Flush and sticky error over a scripted (faulty) sink.
      C. The interleaving model of lockedWriteSyncer (Lock; wrapped call; Unlock) re-homed
         from DESIGN Appendix B, with the in-flight counter the harness sink keeps.
      D. Handles: a lockedWriteSyncer as a reference to a lock cell (Lock on an already locked
@@ -343,6 +344,113 @@ Fixpoint bws_run (size : Z) (s : bws) (ops : list bop) : list Z * list sev :=
                   let '(ns, ev') := bws_run size s1 r in (ns, ev ++ ev')
   end.
 
+(* ---- BufferedWriteSyncer over a SCRIPTED sink (bufio.Writer with its sticky error) ----
+   The wrapped sink answers every Write from a script: an outcome (drop, err) keeps
+   len(b) - drop bytes (never fewer than 0, never more than len(b)), returns that count and
+   the error whose id is err (0 = nil); when the script of the current operation is used up
+   the sink accepts everything.  Every operation of a history carries its own script (the
+   harness installs it in the sink before the call) and, for Sync/Stop/tick, the error id the
+   sink's Sync returns.  This is the full text of bufio.Writer.Write/Flush (Go 1.23) and of
+   BufferedWriteSyncer.Write/Sync/Stop/flushLoop, including b.err. *)
+Definition outcome := (Z * Z)%type.
+Definition sink_write (sc : list outcome) (b : bytes) : list outcome * Z * Z :=
+  match sc with
+  | [] => ([], zlen b, 0)
+  | (d, e) :: r => (r, Z.min (zlen b) (Z.max 0 (zlen b - d)), e)
+  end.
+Definition err_short_write : Z := -1.            (* io.ErrShortWrite *)
+
+(* bufio.Writer.Flush:
+     if b.err != nil { return b.err };  if b.n == 0 { return nil }
+     n, err := b.wr.Write(b.buf[0:b.n])
+     if n < b.n && err == nil { err = io.ErrShortWrite }
+     if err != nil { if n > 0 && n < b.n { copy(b.buf[0:b.n-n], b.buf[n:b.n]) }; b.n -= n; b.err = err; return err }
+     b.n = 0; return nil
+   result: script left, buffer, b.err (= the returned error), sink events *)
+Definition f_flush (sc : list outcome) (buf : bytes) (err : Z) : list outcome * bytes * Z * list sev :=
+  if negb (err =? 0) then (sc, buf, err, [])
+  else if is_nil buf then (sc, buf, 0, [])
+  else let '(sc1, n, e) := sink_write sc buf in
+       let e1 := if (n <? zlen buf) && (e =? 0) then err_short_write else e in
+       if e1 =? 0 then (sc1, [], 0, [SW buf])
+       else (sc1, skipn (Z.to_nat n) buf, e1, [SW buf]).
+
+(* bufio.Writer.Write:
+     for len(p) > b.Available() && b.err == nil {
+       if b.Buffered() == 0 { n, b.err = b.wr.Write(p) }
+       else { n = copy(b.buf[b.n:], p); b.n += n; b.Flush() }
+       nn += n; p = p[n:] }
+     if b.err != nil { return nn, b.err }
+     n := copy(b.buf[b.n:], p); b.n += n; nn += n; return nn, nil
+   A sink that answers (short, nil) to a direct write is simply asked again with the rest, so the
+   loop runs once per script entry at most (plus one flush and one accepted write): [f_fuel].
+   result: script left, buffer, b.err (= the returned error), returned count, sink events *)
+Fixpoint f_bufio_write (fuel : nat) (size : Z) (sc : list outcome) (buf : bytes) (err : Z) (p : bytes)
+                       (nn : Z) (ev : list sev) : list outcome * bytes * Z * Z * list sev :=
+  if (zlen p >? size - zlen buf) && (err =? 0) then
+    match fuel with
+    | O => (sc, buf, err, nn, ev)                       (* never reached with f_fuel: BwsFault.v *)
+    | S f =>
+        if is_nil buf then
+          let '(sc1, n, e) := sink_write sc p in
+          f_bufio_write f size sc1 buf e (skipn (Z.to_nat n) p) (nn + n) (ev ++ [SW p])
+        else
+          let k := Z.to_nat (size - zlen buf) in
+          let '(sc1, buf1, e1, ev1) := f_flush sc (buf ++ firstn k p) 0 in
+          f_bufio_write f size sc1 buf1 e1 (skipn k p) (nn + zlen (firstn k p)) (ev ++ ev1)
+    end
+  else if negb (err =? 0) then (sc, buf, err, nn, ev)
+  else (sc, buf ++ p, 0, nn + zlen p, ev).
+Definition f_fuel (sc : list outcome) : nat := S (S (length sc)).
+
+Record fbw := { fb_init : bool; fb_stopped : bool; fb_buf : bytes; fb_err : Z }.
+Definition fbw0 : fbw := {| fb_init := false; fb_stopped := false; fb_buf := []; fb_err := 0 |}.
+
+(* BufferedWriteSyncer.Write: (state, n, err, sink events) *)
+Definition f_write (size : Z) (s : fbw) (sc : list outcome) (p : bytes) : fbw * Z * Z * list sev :=
+  let mk b e := {| fb_init := true; fb_stopped := fb_stopped s; fb_buf := b; fb_err := e |} in
+  let pre := (zlen p >? size - zlen (fb_buf s)) && (zlen (fb_buf s) >? 0) in
+  let '(sc1, buf1, e1, ev1) := if pre then f_flush sc (fb_buf s) (fb_err s) else (sc, fb_buf s, fb_err s, []) in
+  if pre && negb (e1 =? 0) then (mk buf1 e1, 0, e1, ev1)            (* if err := s.writer.Flush(); err != nil { return 0, err } *)
+  else
+    let '(sc2, buf2, e2, nn, ev2) := f_bufio_write (f_fuel sc1) size sc1 buf1 e1 p 0 [] in
+    if fb_stopped s && (e2 =? 0) then                                (* if s.stopped && err == nil { err = s.writer.Flush() } *)
+      let '(_, buf3, e3, ev3) := f_flush sc2 buf2 e2 in (mk buf3 e3, nn, e3, ev1 ++ ev2 ++ ev3)
+    else (mk buf2 e2, nn, e2, ev1 ++ ev2).
+
+Definition err_list (e : Z) : list Z := if e =? 0 then [] else [e].
+(* Sync: if s.initialized { err = s.writer.Flush() }; return multierr.Append(err, s.WS.Sync()) *)
+Definition f_sync (s : fbw) (sc : list outcome) (se : Z) : fbw * list Z * list sev :=
+  let '(buf1, e1, fe, ev1) :=
+    if fb_init s then let '(_, b, e, ev) := f_flush sc (fb_buf s) (fb_err s) in (b, e, e, ev)
+    else (fb_buf s, fb_err s, 0, []) in
+  ({| fb_init := fb_init s; fb_stopped := fb_stopped s; fb_buf := buf1; fb_err := e1 |},
+   err_list fe ++ err_list se, ev1 ++ [SS]).
+Definition f_stop (s : fbw) (sc : list outcome) (se : Z) : fbw * list Z * list sev :=
+  if negb (fb_init s) then (s, [], [])
+  else if fb_stopped s then (s, err_list se, [SS])
+  else f_sync {| fb_init := fb_init s; fb_stopped := true; fb_buf := fb_buf s; fb_err := fb_err s |} sc se.
+(* the ticker fires: flushLoop calls s.Sync() and drops its error; after Stop (or before the
+   first Write) there is no flushLoop *)
+Definition f_tick (s : fbw) (sc : list outcome) (se : Z) : fbw * list sev :=
+  if fb_init s && negb (fb_stopped s) then let '(s1, _, ev) := f_sync s sc se in (s1, ev) else (s, []).
+
+Inductive fop := FW (p : bytes) (sc : list outcome) | FSync (sc : list outcome) (se : Z)
+               | FStop (sc : list outcome) (se : Z) | FTick (sc : list outcome) (se : Z).
+Inductive fres := FRW (n e : Z) | FRE (es : list Z) | FRT.
+Fixpoint f_run (size : Z) (s : fbw) (ops : list fop) : list fres * list sev :=
+  match ops with
+  | [] => ([], [])
+  | FW p sc :: r => let '(s1, n, e, ev) := f_write size s sc p in
+                    let '(rs, ev') := f_run size s1 r in (FRW n e :: rs, ev ++ ev')
+  | FSync sc se :: r => let '(s1, es, ev) := f_sync s sc se in
+                        let '(rs, ev') := f_run size s1 r in (FRE es :: rs, ev ++ ev')
+  | FStop sc se :: r => let '(s1, es, ev) := f_stop s sc se in
+                        let '(rs, ev') := f_run size s1 r in (FRE es :: rs, ev ++ ev')
+  | FTick sc se :: r => let '(s1, ev) := f_tick s sc se in
+                        let '(rs, ev') := f_run size s1 r in (FRT :: rs, ev ++ ev')
+  end.
+
 (* ================= C. Lock: interleaving model (DESIGN Appendix B, re-homed) ================= *)
 Local Open Scope nat_scope.
 
@@ -551,6 +659,13 @@ Local Open Scope Z_scope.
    (2 2 en (#p ..))                   zapio.Writer;     obs ((n..) (err..))
    (2 3 size (op..))                  BufferedWriteSyncer, op = (0 #p) | (1) Sync | (2) Stop;
                                       obs ((n..) (err..) (sink-event..)), sink-event = #bytes | 0 (Sync)
+   (2 4 size (fop..))                 BufferedWriteSyncer over a scripted sink,
+                                      fop = (0 #p (out..)) Write | (1 (out..) se) Sync | (2 (out..) se) Stop
+                                      | (3 (out..) se) the ticker fires; out = (drop err): what the sink answers to
+                                      its successive Write calls during this operation (then: accepts), se: the
+                                      error id of the sink's Sync (0 nil);
+                                      obs ((r..) (sink-event..)), r = (n err) | (err-id..) Sync, Stop | () tick;
+                                      err: 0 nil, -1 io.ErrShortWrite, else the sink's error id
    (3 ((k..)..) (tid..))              goroutines hammering Lock(sink); obs (max-in-flight completed)
    (4 mode root (step..) (((h k)..)..) (tid..))
                                       several handles onto one sink: handle 0 = root kind [root], every step
@@ -579,6 +694,16 @@ Definition dec_bop (s : sx) : bop :=
   | _ => BStop
   end.
 Definition enc_sev (e : sev) : sx := match e with SW b => SB b | SS => SZ 0 end.
+Definition dec_outs (s : sx) : list outcome := map (fun o => (sx_z (sx_nth o 0), sx_z (sx_nth o 1))) (sx_l s).
+Definition dec_fop (s : sx) : fop :=
+  match sx_z (sx_nth s 0) with
+  | 0 => FW (sx_b (sx_nth s 1)) (dec_outs (sx_nth s 2))
+  | 1 => FSync (dec_outs (sx_nth s 1)) (sx_z (sx_nth s 2))
+  | 2 => FStop (dec_outs (sx_nth s 1)) (sx_z (sx_nth s 2))
+  | _ => FTick (dec_outs (sx_nth s 1)) (sx_z (sx_nth s 2))
+  end.
+Definition enc_fres (r : fres) : sx :=
+  match r with FRW n e => SL [SZ n; SZ e] | FRE es => of_zlist es | FRT => SL [] end.
 Definition dec_prog (s : sx) : list (list Z) := map dec_zs (sx_l s).
 Definition dec_sched (s : sx) : list nat := map sx_n (sx_l s).
 Definition dec_dstep (s : sx) : dstep :=
@@ -612,6 +737,9 @@ Definition model_zapio (i : sx) : sx :=
 Definition model_bws (i : sx) : sx :=
   let '(ns, ev) := bws_run (eff_size (sx_z (sx_nth i 2))) bws0 (map dec_bop (sx_l (sx_nth i 3))) in
   SL [of_zlist ns; of_zlist (map (fun _ => 0) ns); SL (map enc_sev ev)].
+Definition model_bwsf (i : sx) : sx :=
+  let '(rs, ev) := f_run (eff_size (sx_z (sx_nth i 2))) fbw0 (map dec_fop (sx_l (sx_nth i 3))) in
+  SL [SL (map enc_fres rs); SL (map enc_sev ev)].
 Definition model_lock (i : sx) : sx :=
   let s := run (locked_prog (dec_prog (sx_nth i 1))) (dec_sched (sx_nth i 2)) in
   SL [of_nat (maxc s); of_nat (fin s)].
@@ -634,7 +762,8 @@ Definition model (i : sx) : sx :=
     (if wkind i =? 0 then model_stdlog i
      else if wkind i =? 1 then model_testing i
      else if wkind i =? 2 then model_zapio i
-     else model_bws i)
+     else if wkind i =? 3 then model_bws i
+     else model_bwsf i)
   else model_lock i.
 
 (* ---------- the oracle ---------- *)
@@ -685,6 +814,40 @@ Definition spec_bws (i o : sx) : bool :=
   sx_eqb (sx_nth o 0) (of_zlist (bop_lens ops)) &&
   sx_eqb (sx_nth o 1) (of_zlist (map (fun _ => 0) (bop_lens ops))) &&
   is_prefix (sink_bytes (sx_nth o 2)) (bop_bytes ops).
+(* BufferedWriteSyncer over ANY sink behaviour (the io.Writer contract itself): every Write of
+   every history returns a count within 0..len(p), and a count short of len(p) only together
+   with an error; one result per operation.  When the sink is healthy throughout (every scripted
+   answer is a full count with a nil error, every Sync of the sink succeeds) every Write returns
+   (len(p), nil) and Sync / Stop return nil. *)
+Definition contract_ok (lenp : Z) (r : sx) : bool :=
+  match r with
+  | SL [SZ n; SZ e] => (0 <=? n) && (n <=? lenp) && ((n =? lenp) || negb (e =? 0))
+  | _ => false
+  end.
+Fixpoint spec_fres (ops : list fop) (rs : list sx) : bool :=
+  match ops, rs with
+  | [], [] => true
+  | FW p _ :: ops', r :: rs' => contract_ok (zlen p) r && spec_fres ops' rs'
+  | _ :: ops', _ :: rs' => spec_fres ops' rs'
+  | _, _ => false
+  end.
+Definition out_healthy (o : outcome) : bool := (fst o <=? 0) && (snd o =? 0).
+Definition fop_healthy (o : fop) : bool :=
+  match o with
+  | FW _ sc => forallb out_healthy sc
+  | FSync sc se | FStop sc se | FTick sc se => forallb out_healthy sc && (se =? 0)
+  end.
+Fixpoint spec_fres_healthy (ops : list fop) (rs : list sx) : bool :=
+  match ops, rs with
+  | [], [] => true
+  | FW p _ :: ops', r :: rs' => sx_eqb r (SL [SZ (zlen p); SZ 0]) && spec_fres_healthy ops' rs'
+  | _ :: ops', r :: rs' => sx_eqb r (SL []) && spec_fres_healthy ops' rs'
+  | _, _ => false
+  end.
+Definition spec_bwsf (i o : sx) : bool :=
+  let ops := map dec_fop (sx_l (sx_nth i 3)) in
+  spec_fres ops (sx_l (sx_nth o 0)) &&
+  (if forallb fop_healthy ops then spec_fres_healthy ops (sx_l (sx_nth o 0)) else true).
 (* never two wrapped calls in flight; every call completed *)
 Definition spec_lock (i o : sx) : bool :=
   (sx_z (sx_nth o 0) <=? 1) && (0 <=? sx_z (sx_nth o 0)) &&
@@ -703,7 +866,8 @@ Definition spec (i o : sx) : bool :=
     (if wkind i =? 0 then spec_stdlog i o
      else if wkind i =? 1 then spec_testing i o
      else if wkind i =? 2 then spec_zapio i o
-     else spec_bws i o)
+     else if wkind i =? 3 then spec_bws i o
+     else spec_bwsf i o)
   else spec_lock i o.
 
 (* ---------- validity of a case (what the generators guarantee) ---------- *)
